@@ -80,9 +80,6 @@ func (nl *NodeList) indexNodesByHash() hashIndex {
 	ret := hashIndex{}
 	for _, n := range nl.Nodes {
 		for algo, hashVal := range n.Hashes {
-			if hashVal == "" {
-				continue
-			}
 			s := fmt.Sprintf("%d:%s", algo, hashVal)
 			ret[s] = append(ret[s], n)
 		}
